@@ -3,7 +3,7 @@
 Guard dominance, provenance and sibling-consistency rules. Retention counts over arbitrary
 event interleavings are not decided.
 """
-from rdv.core import (CheckBroken, Origins, Pos, call_matches, callee_res, infeasible_edges, norm_path, primary_edges,
+from rdv.core import (CheckBroken, Origins, Pos, call_matches, callee_res, infeasible_edges, natural_loops, norm_path, primary_edges,
                       resolve_captures, strip_generics, switch_edges, term_has, term_leaves, term_str)
 
 CONFIGS = ['default', 'security']     # the security arms are not compiled by the default test suite: decide them on every run
@@ -164,16 +164,62 @@ def run(rep, facts, tier):
             if v == ('field', 'first_seq', ('field', 'history_buffer', ('param', 1))) or (has_field(v, 'first_seq') and has_field(v, 'history_buffer')):
                 decide.append((bb, si))
     ok = bool(some) and bool(sends) and bool(gapsend) and len(decide) >= 3
-    for s_, t_ in some:
-        for r in rw.return_blocks():
-            if P.can_reach((t_, 0), (r, 'term'), avoid_pos=decide, avoid_edges=inf):
-                ok = False
+    # Product of the CFG with two path facts: A = "all before first_available" was recorded on this path (then is_some()/Some of that Option is the only feasible
+    # outcome, otherwise is_none()/None), C = the path took the true edge of pending_gap.contains(requested sn). Copying the pending GAP set into the GAP list
+    # (`extend(pending_gaps)`) answers the request only under C (or A): without either the requested number is not in it.
+    alle0 = list(switch_edges(rw, fx, og))
+    a_sites, ext_sites, other_dec = set(), set(), set()
+    for d in decide:
+        blk = rw.blocks[d[0]]
+        if d[1] == 'term' and callee_res(blk['term']).endswith('::extend'):
+            ext_sites.add(d[0])
+        elif d[1] != 'term':
+            a_sites.add(d)
+        else:
+            other_dec.add(d[0])
+    a_edge, c_edge = {}, set()
+    for s_, t_, cond, lab in alle0:
+        if cond[0] == 'call' and cond[1].endswith(('::is_some', '::is_none')) and has_field(cond, 'first_seq') and has_field(cond, 'history_buffer'):
+            a_edge[(s_, t_)] = (lab is True) == cond[1].endswith('::is_some')
+        elif cond[0] == 'discr' and has_field(cond[1], 'first_seq') and has_field(cond[1], 'history_buffer') and lab in ('Some', 'None'):
+            a_edge[(s_, t_)] = lab == 'Some'
+        elif cond[0] == 'call' and cond[1].endswith('::contains') and lab is True and has_field(cond, 'pending_gap') and has_call(cond, 'first_unsent_change'):
+            c_edge.add((s_, t_))
+    ok = ok and bool(c_edge) and bool(a_edge)
+    inf_set = set(inf)
+    leak = None
+    for s0, t0 in some:
+        seen = set()
+        todo = [(t0, False, False)]
+        while todo and leak is None:
+            bb, A, C = todo.pop()
+            if (bb, A, C) in seen:
+                continue
+            seen.add((bb, A, C))
+            if any(d[0] == bb for d in a_sites):
+                continue                    # recorded "all before": decided (what happens next is (b'))
+            if bb in other_dec:
+                continue
+            if bb in ext_sites and (A or C):
+                continue
+            if bb in rw.return_blocks():
+                leak = bb
+                break
+            for nx in rw.succs(bb):
+                if rw.is_cleanup(nx) or (bb, nx) in inf_set:
+                    continue
+                if (bb, nx) in a_edge and a_edge[(bb, nx)] != A:
+                    continue
+                todo.append((nx, A, C or (bb, nx) in c_edge))
+    if leak is not None:
+        ok = False
     rep.check(ok, 'R04.4', 'handle_repair_data_send_worker/answer-decided', 'requested sn => DATA, or sn put into the GAP set, or "all before first_available" recorded, on every path',
               'a requested sequence number can leave the repair worker with neither DATA sent nor a GAP recorded for it', rw.where())
     rule_04_9(rep, fx, rw, og, sends)
     rule_04_10(rep, fx)
     rule_04_11(rep, fx)
     rule_04_12(rep, fx)
+    rule_04_13(rep, fx)
     # (b) a recorded GAP is always sent: on `!no_longer_relevant.is_empty()` or `all_irrelevant_before.is_some()` the message goes out
     alle = list(switch_edges(rw, fx, og))
     must_send = [(s_, t_) for s_, t_, cond, lab in alle if (cond[0] == 'call' and cond[1].endswith('::is_empty') and lab is False and term_has(cond, lambda x: x[0] == 'call' and x[1].endswith('BTreeSet::new')))
@@ -244,6 +290,15 @@ def run(rep, facts, tier):
                 okm = P.every_path_passes(None, (bb, 'term'), via_pos=[(sb, 'term') for sb, _ in sends], from_entry=True)
                 rep.check(okm, 'R04.4', 'handle_repair_data_send_worker/mark-sent-after-data', 'mark_change_sent(sn) only after send_cache_change',
                           'a requested sequence number is marked sent without its DATA having been emitted', rw.where(bb))
+    # ... and always after it: a served request leaves the unsent set, or the same number is served for ever and nothing behind it is repaired (mutation triage)
+    msent = [(bb, 'term') for bb, t in rw.calls() if call_matches(t, 'RtpsReaderProxy::mark_change_sent') and has_call(og.of_operand(t['args'][1], bb, 'term'), 'first_unsent_change')]
+    oks = bool(sends) and bool(msent)
+    for sb, _ in sends:
+        for r in rw.return_blocks():
+            if P.can_reach((sb, 'term'), (r, 'term'), avoid_pos=msent):
+                oks = False
+    rep.check(oks, 'R04.4', 'handle_repair_data_send_worker/served-then-marked-sent', 'send_cache_change(requested sn) => mark_change_sent(sn) on every path to the return',
+              'after sending the repair DATA the requested number can stay in the unsent set: the worker serves the same number at every round and never reaches the ones behind it', rw.where())
     # ------------------------------------------------------------ R04.5
     ra = fx.find(W + 'remove_all_acked_changes_but_keep_depth')
     rep.analysed(ra)
@@ -474,6 +529,124 @@ def rule_04_10(rep, fx):
                 ok = False
     rep.check(ok, 'R04.10', 'handle_ack_nack/pending-gap-announced', 'pending_gap not empty => gap_msg(pending_gap) sent, on every path',
               'Writer::handle_ack_nack does not send the GAP for a non-empty pending-gap set of the acknowledging reader on every path (or sends it only when the set is empty)', h.where())
+
+
+def rule_04_13(rep, fx, rid='R04.13'):
+    """An ACKNACK is the only way a reader asks for a sample. R02.1 follows it to Writer::handle_ack_nack, R04.4 starts from the proxy's unsent set: this rule is the link between."""
+    rep.rule(rid, 'the request is recorded: in Writer::handle_ack_nack, once lookup_reader_proxy_mut(GUID(source prefix, acknack.reader_id)) found the proxy, every path calls '
+                  'proxy.handle_ack_nack(the received submessage, ..) before anything else decides about repair; RtpsReaderProxy::handle_ack_nack stores max(base, 1) of that '
+                  'ACKNACK into all_acked_before on every path of the AckNack arm and inserts every member of reader_sn_state.iter() into unsent_changes (every cycle of the loop); '
+                  'the only cut of unsent_changes there is split_off(last_available + 1) under highest > last_available')
+    h = fx.find(W + 'handle_ack_nack')
+    rep.analysed(h)
+    og = Origins(h, summaries=True)
+    P = Pos(h)
+    edges = list(switch_edges(h, fx, og))
+    found = [(s_, t_, cond) for s_, t_, cond, lab in edges if lab == 'Some' and cond[0] == 'discr' and cond[1][0] == 'call' and cond[1][1].endswith('lookup_reader_proxy_mut') and
+             term_has(cond, lambda x: x[0] == 'variant' and x[1] == 'AckNack')]
+    calls = []
+    for bb, t in h.calls():
+        if call_matches(t, 'RtpsReaderProxy::handle_ack_nack'):
+            a0 = og.of_operand(t['args'][0], bb, 'term')
+            a1 = _strip4(og.of_operand(t['args'][1], bb, 'term'))
+            if has_call(a0, 'lookup_reader_proxy_mut') and a1[0] == 'param':
+                calls.append((bb, 'term'))
+    ok = len(found) >= 1 and len(calls) >= 1
+    why = 'no such call'
+    # the proxy looked up is the sender's: GUID::new(prefix parameter, acknack.reader_id)
+    for s_, t_, cond in found:
+        if not (term_has(cond, lambda x: x[0] == 'call' and x[1].endswith('GUID::new') and term_has(x, lambda y: y[0] == 'field' and y[1] == 'reader_id') and
+                         term_has(x, lambda y: y[0] == 'param'))):
+            ok = False
+            why = 'the proxy is not looked up by GUID(source prefix, acknack.reader_id)'
+    # first thing on every path: stores into the proxy's repair_mode / the repair timer / return lie behind the call
+    stops = [(r, 'term') for r in h.return_blocks()]
+    for bb, si, st in h.statements():
+        if st['s'] == 'assign' and st['lhs'].get('p') and any(pp.get('n') == 'repair_mode' for pp in st['lhs']['p'] if isinstance(pp, dict)):
+            stops.append((bb, si))
+    stops += [(bb, 'term') for bb, t in h.calls() if callee_res(t).endswith('set_timeout')]
+    for s_, t_, cond in found:
+        for x in stops:
+            if P.can_reach((t_, 0), x, avoid_pos=calls):
+                ok = False
+                why = 'a path from the found proxy reaches %s without the call' % ('the return' if x[1] == 'term' and x[0] in h.return_blocks() else 'the repair decision')
+    rep.check(ok, rid, 'Writer::handle_ack_nack/proxy-told', 'found proxy => proxy.handle_ack_nack(received ACKNACK) first, on every path',
+              'Writer::handle_ack_nack does not hand the received ACKNACK to the reader proxy of its sender on every path (%s): neither the acknowledgment nor the requested '
+              'numbers are recorded, so nothing is ever repaired' % why, h.where(found[0][0]) if found else h.where())
+    rep.floor(rid, len(stops), 3, 'repair decisions / returns after the lookup in Writer::handle_ack_nack')
+
+    b = fx.find(RP + 'handle_ack_nack')
+    rep.analysed(b)
+    og = Origins(b, summaries=False)
+    P = Pos(b)
+    edges = list(switch_edges(b, fx, og))
+    arm = [(s_, t_) for s_, t_, cond, lab in primary_edges(b, edges) if lab == 'AckNack']
+    # (1) all_acked_before := max(base, 1)
+    stores = []
+    for bb, si, st in b.statements():
+        if st['s'] == 'assign' and st['lhs'].get('p') and any(isinstance(pp, dict) and pp.get('n') == 'all_acked_before' for pp in st['lhs']['p']):
+            v = og._rvalue(st['rv'], bb, si, 0)
+            good = term_has(v, lambda x: x[0] == 'call' and x[1].endswith('::base') and has_field(x, 'reader_sn_state')) and \
+                not term_has(v, lambda x: x[0] == 'call' and x[1].rsplit('::', 1)[-1] in ('min', 'sub', 'add', 'plus_1'))
+            stores.append(((bb, si), good, v))
+    ok = len(arm) == 1 and len(stores) >= 1 and all(g for _, g, _ in stores)
+    for s_, t_ in arm:
+        for r in b.return_blocks():
+            if P.can_reach((t_, 0), (r, 'term'), avoid_pos=[p_ for p_, _, _ in stores]):
+                ok = False
+    rep.check(ok, rid, 'RtpsReaderProxy::handle_ack_nack/acked-recorded', 'all_acked_before := max(reader_sn_state.base(), 1) on every path of the AckNack arm',
+              'the reader proxy does not record the base of the received ACKNACK as all_acked_before on every path (stored: %s): the writer never learns what arrived, keeps '
+              'sending HEARTBEATs and never releases the samples' % '; '.join(term_str(v)[:80] for _, _, v in stores), b.where(stores[0][0][0]) if stores else b.where())
+    # (2) every requested number goes into unsent_changes
+    n_loop = 0
+    okl = True
+    for lp in natural_loops(b):
+        head, blocks = lp[0], lp[1]
+        nxt = [(bb, t) for bb, t in b.calls() if bb in blocks and callee_res(t).endswith('::next') and
+               term_has(og.of_operand(t['args'][0], bb, 'term'), lambda x: x[0] == 'call' and x[1].endswith('::iter') and has_field(x, 'reader_sn_state'))]
+        if not nxt:
+            continue
+        n_loop += 1
+        nb = nxt[0][0]
+        some = [(s_, t_) for s_, t_, cond, lab in edges if lab == 'Some' and s_ in blocks and cond[0] == 'discr' and cond[1][0] == 'call' and cond[1][1].endswith('::next')]
+        ins = []
+        for bb, t in b.calls():
+            if bb in blocks and callee_res(t).endswith('::insert') and has_field(og.of_operand(t['args'][0], bb, 'term'), 'unsent_changes'):
+                v = og.of_operand(t['args'][1], bb, 'term')
+                if term_has(v, lambda x: x[0] == 'variant' and x[1] == 'Some') and has_call(v, '::next'):
+                    ins.append((bb, 'term'))
+        okl = okl and bool(some) and bool(ins)
+        for s_, t_ in some:
+            if P.can_reach((t_, 0), (nb, 'term'), avoid_pos=ins):
+                okl = False
+            for r in b.return_blocks():
+                if P.can_reach((t_, 0), (r, 'term'), avoid_pos=ins):
+                    okl = False
+    rep.check(okl and n_loop == 1, rid, 'RtpsReaderProxy::handle_ack_nack/requests-recorded', 'every member of reader_sn_state.iter() is inserted into unsent_changes',
+              'the reader proxy does not put every sequence number the ACKNACK asks for into unsent_changes (loops over the requested set: %d): the request is acknowledged and forgotten, '
+              'the sample is never sent again' % n_loop, b.where())
+    # (3) the only cut: split_off(last_available + 1) behind highest > last_available
+    cuts = []
+    for bb, t in b.calls():
+        r = callee_res(t).rsplit('::', 1)[-1]
+        if r in ('split_off', 'clear', 'retain', 'remove', 'pop_first', 'pop_last', 'take', 'drain') and t['args'] and has_field(og.of_operand(t['args'][0], bb, 'term'), 'unsent_changes'):
+            cuts.append((bb, t, r))
+    okc = True
+    whyc = ''
+    gt = [(s_, t_) for s_, t_, cond, lab in edges if cond[0] == 'call' and ((cond[1].endswith('::gt') and lab is True) or (cond[1].endswith('::le') and lab is False)) and
+          term_has(cond[2][0], lambda x: x[0] == 'call' and x[1].endswith('next_back')) and _strip4(cond[2][1]) == ('param', 3)]
+    gt += [(s_, t_) for s_, t_, cond, lab in edges if cond[0] == 'call' and ((cond[1].endswith('::lt') and lab is True) or (cond[1].endswith('::ge') and lab is False)) and
+           term_has(cond[2][1], lambda x: x[0] == 'call' and x[1].endswith('next_back')) and _strip4(cond[2][0]) == ('param', 3)]
+    for bb, t, r in cuts:
+        a = og.of_operand(t['args'][1], bb, 'term') if len(t['args']) > 1 else None
+        if r != 'split_off' or a is None or not (term_has(a, lambda x: x[0] == 'call' and x[1].endswith('plus_1')) and term_has(a, lambda x: x == ('param', 3))):
+            okc = False
+            whyc = '%s(%s)' % (r, term_str(a)[:60] if a else '')
+        elif not gt or not P.every_path_passes(None, (bb, 'term'), via_edges=gt, from_entry=True):
+            okc = False
+            whyc = 'split_off not behind highest > last_available'
+    rep.check(okc, rid, 'RtpsReaderProxy::handle_ack_nack/only-unavailable-cut', '%d cut(s) of unsent_changes: split_off(last_available + 1) under highest > last_available' % len(cuts),
+              'handling an ACKNACK removes requested numbers from unsent_changes that the writer could serve (%s)' % whyc, b.where(cuts[0][0]) if cuts else b.where())
 
 
 def rule_04_11(rep, fx):
